@@ -343,6 +343,55 @@ fn build(tier: Tier) -> Vec<Scenario> {
             (cases, cases - 1, fail)
         }),
     ));
+    // the ParallelIteratorSource operator itself (setup with the replica's global id and the number
+    // of replicas, then next() until Terminate), for a range and for a generator closure
+    out.push(loop_scenario(
+        "C15/par-iter-operator".to_string(),
+        "stream_par_iter(range) and stream_par_iter(closure) for ranges 0..n (n <= 7, also reversed) x 1..=5 replicas, each replica's operator driven with its metadata: every element exactly once over all replicas".to_string(),
+        Arc::new(|| {
+            let mut cases = 0;
+            let mut fails = crate::e2::FailSet::default();
+            for n in -2i64..=7 {
+                for peers in 1u64..=5 {
+                    cases += 1;
+                    let mut got_range: Vec<i64> = vec![];
+                    let mut got_closure: Vec<i64> = vec![];
+                    for id in 0..peers {
+                        let env = renoir::StreamContext::new(renoir::RuntimeConfig::local(peers).unwrap());
+                        match run_source(env.stream_par_iter(0..n).verif_into_chain().chain, id, peers) {
+                            Ok(v) => got_range.extend(v),
+                            Err(p) => fails.add(Some(Fail::new("c15-par-iter-panic", format!("stream_par_iter(0..{n}) replica {id}/{peers}: {p}")))),
+                        }
+                        let env = renoir::StreamContext::new(renoir::RuntimeConfig::local(peers).unwrap());
+                        let total = n;
+                        match run_source(env.stream_par_iter(move |i: u64, k: u64| (i as i64..total).step_by(k as usize)).verif_into_chain().chain, id, peers) {
+                            Ok(v) => got_closure.extend(v),
+                            Err(p) => fails.add(Some(Fail::new("c15-par-iter-panic", format!("stream_par_iter(closure, {n}) replica {id}/{peers}: {p}")))),
+                        }
+                    }
+                    let exp: Vec<i64> = (0..n).collect();
+                    got_range.sort();
+                    got_closure.sort();
+                    if got_range != exp {
+                        fails.add(Some(Fail::new("c15-par-iter-range", format!("stream_par_iter(0..{n}) over {peers} replicas emitted {:?}", got_range))));
+                    }
+                    if got_closure != exp {
+                        fails.add(Some(Fail::new("c15-par-iter-closure", format!("stream_par_iter(|id, peers| (id..{n}).step_by(peers)) over {peers} replicas emitted {:?}: the closure was not given each (id, peers) once", got_closure))));
+                    }
+                }
+            }
+            (cases, cases - 10, fails.first())
+        }),
+    ));
+    // the sources inside running jobs (replicas created by the scheduler, also on several hosts)
+    for layout in [crate::kit::Layout::Local(3), crate::kit::Layout::Remote(vec![2, 1]), crate::kit::Layout::Remote(vec![1, 2])] {
+        for kind in [SrcJob::Range(7), SrcJob::Range(2), SrcJob::Closure(5), SrcJob::File, SrcJob::Csv] {
+            if tier == Tier::Quick && kind == SrcJob::Range(2) && layout.hosts() > 1 {
+                continue;
+            }
+            out.push(source_job_scenario(kind, layout.clone(), if tier == Tier::Quick { 0 } else { 1 }));
+        }
+    }
     // channel source fed by a concurrent task: every item once, in order, on a single replica
     for n in [0usize, 1, 4] {
         for p in [1u64, 2] {
@@ -350,6 +399,104 @@ fn build(tier: Tier) -> Vec<Scenario> {
         }
     }
     out
+}
+
+#[derive(Clone, Copy, Debug, PartialEq, Eq)]
+enum SrcJob {
+    Range(i64),
+    Closure(i64),
+    File,
+    Csv,
+}
+
+const JOB_FILE: &[u8] = b"a\nbb\n\nccc\r\ndddd\ne";
+const JOB_CSV: &[u8] = b"x,y\n1,2\n3,4\r\n5,6\n7,8";
+
+/// A job `source -> collect_vec` on a layout: the multiset collected is the source's content.
+fn source_job_scenario(kind: SrcJob, layout: crate::kit::Layout, bound: usize) -> Scenario {
+    use crate::rt::{log, Ev, Status};
+    let l2 = layout.clone();
+    let name = format!("C15/job/{:?}/{}", kind, layout.name());
+    let tag = name.replace('/', "_").replace(['(', ')'], "-");
+    let body: crate::rt::Body = Arc::new(move || {
+        let path = scratch_file(&tag);
+        match kind {
+            SrcJob::File => std::fs::write(&path, JOB_FILE).unwrap(),
+            SrcJob::Csv => std::fs::write(&path, JOB_CSV).unwrap(),
+            _ => {}
+        }
+        let p2 = path.clone();
+        let res = crate::kit::run_hosts(
+            &l2,
+            Arc::new(move |host, env| {
+                let out = match kind {
+                    SrcJob::Range(n) => env.stream_par_iter(0..n).map(|x| vec![x]).collect_vec(),
+                    SrcJob::Closure(n) => env.stream_par_iter(move |i: u64, k: u64| (i as i64..n).step_by(k as usize)).map(|x| vec![x]).collect_vec(),
+                    SrcJob::File => env.stream_file(&p2).map(|l| l.bytes().map(|b| b as i64).collect::<Vec<i64>>()).collect_vec(),
+                    SrcJob::Csv => env.stream_csv::<(i64, i64)>(&p2).map(|(a, b)| vec![a, b]).collect_vec(),
+                };
+                env.execute_blocking();
+                if let Some(v) = out.get() {
+                    for row in v {
+                        log(Ev::Note("row", row));
+                    }
+                    log(Ev::Note("published", vec![host as i64]));
+                }
+            }),
+        );
+        let _ = std::fs::remove_file(&path);
+        for (h, r) in res.into_iter().enumerate() {
+            if let Some(p) = r {
+                log(Ev::Text("host-panic", format!("{h}: {p}")));
+            }
+        }
+    });
+    let mut exp: Vec<Vec<i64>> = match kind {
+        SrcJob::Range(n) | SrcJob::Closure(n) => (0..n).map(|x| vec![x]).collect(),
+        // FileSource yields each line with its terminator (see `check_file`)
+        SrcJob::File => JOB_FILE.split_inclusive(|b| *b == b'\n').map(|l| l.iter().map(|b| *b as i64).collect()).collect(),
+        SrcJob::Csv => vec![vec![1, 2], vec![3, 4], vec![5, 6], vec![7, 8]],
+    };
+    exp.sort();
+    let descr = format!("job {:?} -> collect_vec on layout {} (file content {:?}, csv content {:?})", kind, layout.name(), String::from_utf8_lossy(JOB_FILE), String::from_utf8_lossy(JOB_CSV));
+    let d2 = descr.clone();
+    let check: crate::explore::Check = Arc::new(move |r| {
+        if r.status != Status::Done {
+            return Err(Fail::new("c15-job-abnormal", format!("{d2}: {:?}", r.status)));
+        }
+        let mut rows: Vec<Vec<i64>> = vec![];
+        let mut published = 0;
+        for e in &r.log {
+            match e {
+                Ev::Text("host-panic", t) => return Err(Fail::new("c15-job-panic", format!("{d2}: {t}"))),
+                Ev::Note("row", v) => rows.push(v.clone()),
+                Ev::Note("published", _) => published += 1,
+                _ => {}
+            }
+        }
+        rows.sort();
+        if published != 1 || rows != exp {
+            return Err(Fail::new(
+                format!("c15-job-{}", match kind { SrcJob::Range(_) => "range", SrcJob::Closure(_) => "closure", SrcJob::File => "file", SrcJob::Csv => "csv" }),
+                format!("{d2}: collected {:?} (published {published} times), the source holds {:?}", rows, exp),
+            ));
+        }
+        Ok(crate::explore::hash_of(&r.trace.len()))
+    });
+    Scenario {
+        name,
+        descr,
+        params: crate::rt::EnvParams::default(),
+        body,
+        check,
+        bound,
+        orders: crate::props::common::ORDERS3.to_vec(),
+        max_execs: 0,
+        shards: 1,
+        nontrivial: true,
+        unbounded: false,
+        loop_body: false,
+    }
 }
 
 fn channel_source_scenario(n: usize, p: u64, bound: usize) -> Scenario {
